@@ -455,6 +455,8 @@ def counts(log):
 def render(c, o):
     if "panic" in o or "harness_error" in o:
         return "false"
+    if c["kind"] == "push-legacy-conc":
+        return render_push_conc(c, o)
     if c["kind"] in ("push", "push-legacy"):
         return render_push(c, o)
     pre = preimages(c, o)
@@ -594,6 +596,105 @@ def retry_run_cases(rng, quick):
         out.append({"kind": "pull", "threshold": 8, "max_streams": 1, "handler": True, "stream": False, "auth": False, "pre": [],
                     "attempts": [att("ok", fault), att("ok", "ok")], "plankind": [], "read_timeout_ms": None, "klass": "nonstream"})
     return out
+
+
+def conc_push_cases(rng, quick):
+    """2-3 concurrent legacy PushModel calls of models that share a layer (they meet in blobUploadManager), against the
+    scripted registry with gates: the POST that opens the upload session or the finalising PUT of the shared layer is held
+    while the other pushes join; the push that created the upload is cancelled at a gate, or the held request is
+    answered late / rejected once; also an empty shared layer (Completed == Total == 0 from the start)."""
+    out = []
+    reps = 1 if quick else 6
+    for _ in range(reps):
+        for tmpl in ("cancel-at-post", "cancel-at-commit", "hold-commit", "hold-commit-3", "hold-post", "reject-post", "empty-shared", "empty-single",
+                     "hold-commit-late-shared", "reject-commit-once"):
+            if quick and tmpl == "reject-commit-once" and rng.random() < 0.5:
+                continue
+            S = b"" if tmpl.startswith("empty") else rnd_content(rng, rng.randint(1, 9))
+            extra = lambda: [rnd_content(rng, rng.randint(1, 6))] if rng.random() < 0.7 else []
+            nm = 3 if tmpl == "hold-commit-3" else (1 if tmpl == "empty-single" else 2)
+            models = []
+            for i in range(nm):
+                own = extra()
+                layers = [S] + own if (i == 0 or tmpl != "hold-commit-late-shared") else own + [S]
+                if i == 0 and rng.random() < 0.3 and tmpl not in ("cancel-at-post", "reject-post"):
+                    layers = own + [S]
+                models.append({"name": "m" + "abc"[i], "layers": [hx(x) for x in layers]})
+            d = sha(S)
+            joiners = [["start", i] for i in range(1, nm)]
+            seen = [["seen", "head m%s %s" % ("abc"[i], d)] for i in range(1, nm)]
+            if tmpl in ("cancel-at-post", "hold-post", "reject-post"):
+                gates = ["post:" + d]
+                script = [["start", 0], ["arrive", "post:" + d]] + joiners + seen + [["sleep", 80]]
+                if tmpl == "cancel-at-post":
+                    script += [["cancel", 0], ["sleep", 30]]
+                script += [["release", "post:" + d, 500 if tmpl == "reject-post" else 202]]
+            else:
+                gates = ["commit:" + d]
+                script = [["start", 0], ["arrive", "commit:" + d]] + joiners + seen + [["sleep", rng.choice([150, 250])]]
+                if tmpl == "cancel-at-commit":
+                    script += [["cancel", 0], ["sleep", 40]]
+                if tmpl == "reject-commit-once":
+                    script += [["release", "commit:" + d, 500], ["arrive", "commit:" + d], ["sleep", 100]]
+                script += [["release", "commit:" + d, 201]]
+            script += [["join", i] for i in range(nm)]
+            out.append({"kind": "push-legacy-conc", "models": models, "gates": gates, "head": {}, "script": script, "tmpl": tmpl, "klass": "push-legacy-conc"})
+    return out
+
+
+def conc_push_view(c, o):
+    """per push: (events [(layer index, accepted)], manifest sent?, result) read off the global request log: a layer of a push
+    is accepted iff, before that push's manifest PUT (or its end), the registry answered its HEAD with 200 or a finalising
+    PUT of that digest with 2xx"""
+    log = o.get("log", [])
+    views = []
+    for i, m in enumerate(c["models"]):
+        name = m["name"]
+        layers = [sha(bytes.fromhex(h)) for h in m["layers"]]
+        man = next((k for k, l in enumerate(log) if l.startswith("manifest-put %s " % name)), None)
+        end = man if man is not None else next((k for k, l in enumerate(log) if l.startswith("done %d " % i)), len(log))
+        def accepted(d, upto):
+            for l in log[:upto]:
+                w = l.split(" ")
+                if (w[0] == "head" and w[1] == name and w[2] == d and w[3] == "200") or (w[0] == "commit" and w[1] == d and w[2][:1] == "2"):
+                    return True
+            return False
+        seen = []
+        for l in log:
+            w = l.split(" ")
+            if w[0] == "head" and w[1] == name and w[2] in layers and w[2] not in seen:
+                seen.append(w[2])
+        events = [(layers.index(d), accepted(d, end)) for d in seen]
+        views.append({"name": name, "layers": layers, "events": events, "manifest": man is not None,
+                      "all_accepted": all(accepted(d, end) for d in layers), "result": (o.get("results") or [None] * 9)[i]})
+    return views
+
+
+def monitor_push_conc(c, o):
+    out = []
+    for i, v in enumerate(conc_push_view(c, o)):
+        if v["result"] is not None and str(v["result"]).startswith("PANIC"):
+            out.append(({"kind": "push-legacy-conc", "class": "panic"}, "push %d: %s" % (i, v["result"])))
+        if v["manifest"] and not v["all_accepted"]:
+            out.append(({"kind": "push-legacy-conc", "class": "manifest-before-layers", "tmpl": c.get("tmpl")},
+                        "concurrent pushes (%s): push %d (%s) sent its manifest before every one of its layers was accepted by the registry: %s" % (
+                            c.get("tmpl"), i, v["name"], [l[:60] for l in o.get("log", [])])))
+        if v["result"] == "" and not (v["manifest"] and v["all_accepted"]):
+            out.append(({"kind": "push-legacy-conc", "class": "push-ok-without-accepted-layers", "tmpl": c.get("tmpl")},
+                        "concurrent pushes (%s): push %d (%s) reported success although a layer of it was never accepted or its manifest was not sent" % (c.get("tmpl"), i, v["name"])))
+    if any(l.startswith("timeout ") for l in o.get("log", [])):
+        pass
+    return out
+
+
+def render_push_conc(c, o):
+    terms = []
+    for v in conc_push_view(c, o):
+        acc = dict(v["events"])
+        res = [acc.get(k, True) for k in range(len(v["layers"]))]
+        obs = ["(EvBlob %s %s)" % (cq_nat(k), cq_bool(a)) for k, a in v["events"]] + (["EvManifest"] if v["manifest"] else [])
+        terms.append("chk_push_legacy %s %s" % (cq_list([cq_bool(x) for x in res], "bool"), cq_list(obs, "pev")))
+    return "(" + " && ".join(terms) + ")%bool" if terms else "false"
 
 
 def slow_legacy_cases(rng, n):
@@ -789,6 +890,8 @@ def monitor_push_legacy(c, o):
 
 
 def monitor_push(c, o):
+    if c["kind"] == "push-legacy-conc":
+        return monitor_push_conc(c, o)
     if c["kind"] == "push-legacy":
         return monitor_push_legacy(c, o)
     out = []
@@ -945,7 +1048,7 @@ def shrink(ctx, binp, c, sig):
 
 
 def nontrivial(c, o):
-    if c["kind"] in ("push", "push-legacy"):
+    if c["kind"] in ("push", "push-legacy", "push-legacy-conc"):
         return len(o.get("log", [])) >= 2
     if c["handler"]:
         return o.get("attempts_made", 0) >= 1 and any(s["blobs"] for s in o.get("snaps", []))
@@ -979,7 +1082,7 @@ def run(ctx, only_cases=None):
         import subprocess
         rng2 = random.Random(ctx.seed * 7919 + 9)
         batches = [[sc] for sc in slow_legacy_cases(rng2, 1 if ctx.quick() else 6)]
-        rr = retry_run_cases(rng2, ctx.quick())
+        rr = retry_run_cases(rng2, ctx.quick()) + conc_push_cases(rng2, ctx.quick())
         batches += [rr] if ctx.quick() else [rr[0::2], rr[1::2]]
         for batch in batches:
             p = subprocess.Popen([binp], stdin=subprocess.PIPE, stdout=subprocess.PIPE, stderr=subprocess.PIPE, text=True, env=vlib.goenv(), cwd=ctx.tmp)
@@ -1021,6 +1124,8 @@ def run(ctx, only_cases=None):
                                          for sc, so in zip(scases, sobs) if sc["kind"] == "push-legacy"]
         ctx.extra["retry_runs"] = [{"klass": sc["klass"], "scripted_attempts": len(sc["attempts"]), "made": so.get("attempts_made"), "handler_ok": handler_ok(so)}
                                    for sc, so in zip(scases, sobs) if sc["kind"] == "pull"]
+        ctx.extra["concurrent_legacy_pushes"] = [{"tmpl": sc.get("tmpl"), "results": so.get("results"), "timeouts": [l for l in so.get("log", []) if l.startswith("timeout")]}
+                                                 for sc, so in zip(scases, sobs) if sc["kind"] == "push-legacy-conc"]
         process(ctx, binp, scases, sobs, seen, "slow", rerun=False)
 
 
